@@ -482,7 +482,7 @@ def coq(t, attr: str, case, env_ids) -> str:
             acc = f"(XJoin {'JInner' if t[1] == 'inner' else 'JLeft'} {acc} {rec(x)})"
         return acc
     if k == "aggr":
-        return f"(XAggr {rec(t[2])} {coq_list([coq_string(i) for i in tree_ids(t, case, env_ids)])})"
+        return f"(XAggr {rec(t[2])} {coq_list([coq_string(i) for i in tree_ids(t, case, env_ids)])} {'true' if t[5] == 'clause' else 'false'})"
     if k == "analytic":
         return f"(XAnalytic {rec(t[2])} {coq_list([coq_string(i) for i in t[3]])})"
     if k == "filter":
